@@ -287,6 +287,7 @@ func runE(l *live, pre string, r *hx.Rng) (string, string, error) {
 	}()
 	next := make([]int, k+1) // next source position to feed
 	restarts := 0
+	burst := 0
 	done := func() bool {
 		for c := 1; c <= k; c++ {
 			if next[c] < len(src[c]) {
@@ -320,6 +321,7 @@ func runE(l *live, pre string, r *hx.Rng) (string, string, error) {
 				return "", "", err
 			}
 			restarts++
+			burst = 3 + r.Pick(4) // the replayed entries are queued together while the new send loop asks for the remote position
 			continue
 		}
 		e := src[c][next[c]]
@@ -328,17 +330,35 @@ func runE(l *live, pre string, r *hx.Rng) (string, string, error) {
 			return "", "", fmt.Errorf("syncer sm apply: %v", err)
 		}
 		next[c]++
-		if r.Chance(0.3) {
+		if burst > 0 {
+			burst--
+		} else if r.Chance(0.3) {
 			time.Sleep(time.Duration(r.Pick(30)) * time.Millisecond)
 		}
 	}
-	// drain: wait until the receiver has synced the last entry of every source
+	// drain: wait until the receiver has synced the last entry of every source.  If the SENDER itself reports the
+	// last entry as synced (its own synced_index) while the receiver stays behind, the run is conclusive: the case is
+	// recorded as it is and the oracle judges it (entries never delivered).
 	deadline := time.Now().Add(60 * time.Second)
 	for c := 1; c <= k; c++ {
 		last := src[c][len(src[c])-1].i
+		var claimedSince time.Time
 		for px.syncedIndex(c) < last {
 			if px.broken != "" {
 				return "", "", errors.New("proxy: " + px.broken)
+			}
+			claimed := false
+			if st, ok := sms[c].GetStats("", false).InternalStats["synced_index"].(uint64); ok && st >= last {
+				claimed = true
+			}
+			if claimed {
+				if claimedSince.IsZero() {
+					claimedSince = time.Now()
+				} else if time.Since(claimedSince) > 2*time.Second {
+					break
+				}
+			} else {
+				claimedSince = time.Time{}
 			}
 			if time.Now().After(deadline) {
 				return "", "", fmt.Errorf("drain timeout: cluster %d synced %d < %d", c, px.syncedIndex(c), last)
